@@ -70,14 +70,20 @@ def _worker(case):
     """run the implementation on one case under a watchdog: a case that does not finish within
     CASE_TIMEOUT_S is a *finding* (non-termination / super-linear time), not a harness crash"""
     limit = getattr(_MOD, 'CASE_TIMEOUT_S', 20)
+    # the limit is CPU time of this worker (a loaded machine must not turn a 7 s case into "no termination":
+    # docs/false-alarm-test-3.md, case 3); a wall-clock backstop of ten times the limit catches waiting (sleep, dead lock,
+    # a child process that hangs)
     signal.signal(signal.SIGALRM, _alarm)
-    signal.setitimer(signal.ITIMER_REAL, limit)
+    signal.signal(signal.SIGPROF, _alarm)
+    signal.setitimer(signal.ITIMER_PROF, limit)
+    signal.setitimer(signal.ITIMER_REAL, 10 * limit)
     try:
         r = _MOD.run_impl(case)
         return ('ok', r)
     except CaseTimeout:
         return ('ok', {'obs': 'timeout', 'nontrivial': False,
-                       'd_fail': [{'sig': 'no-termination', 'what': 'the implementation did not finish this case within %ss' % limit}]})
+                       'd_fail': [{'sig': 'no-termination', 'what': 'the implementation did not finish this case within %ss of CPU '
+                                   'time (or %ss of wall-clock time)' % (limit, 10 * limit)}]})
     except Exception as e:
         # an exception escaping from the implementation's own code on an input of the property's domain is
         # a finding; an exception raised by harness code is a harness crash (exit 2)
@@ -90,6 +96,7 @@ def _worker(case):
                                            type(e).__name__, str(e)[:200], os.path.basename(inner), tb[-1].lineno)}]})
         return ('crash', traceback.format_exc())
     finally:
+        signal.setitimer(signal.ITIMER_PROF, 0)
         signal.setitimer(signal.ITIMER_REAL, 0)
 
 
